@@ -448,6 +448,49 @@ def r7_forgotten_callback_results(ctx, P):
     ctx.floor(R, "mem::forget call sites inspected", nall, 5)
 
 
+def r10_ranged_iter_and_retain_guard(ctx, P, R="C06.R10"):
+    ctx.rule(R, "drain/extract ranges and the retain guard are exact: IntoIter::new_ranged covers `range.end - range.start` "
+                "elements in both its arms; BumpBox<[T]>::retain advances the guard's read index past the element before that "
+                "element is dropped (a panicking Drop must not see it restored into the slice)")
+    # ---- new_ranged
+    bs = [b for b in P.fn_bodies() if b.item["name"] == "new_ranged" and "owned_slice::into_iter::IntoIter" in b.path]
+    if ctx.need(len(bs) == 1, R, "owned_slice::into_iter::IntoIter::new_ranged"):
+        b = bs[0]
+        z = b.calls_to(lambda f: f.get("name") == "new_zst")
+        if ctx.need(len(z) == 1, R, "new_zst call in new_ranged"):
+            s_, t = z[0]
+            v = strip_casts(b.prov_operand(t["args"][0], s_))
+            ok = v[0] == "bin" and v[1].startswith("Sub") and \
+                expr_mentions(v[2], lambda x: x[0] == "field" and x[2] == "end") and expr_mentions(v[3], lambda x: x[0] == "field" and x[2] == "start")
+            ctx.inst(R, b.path, ok, f"zero-sized arm: new_zst({show(v)})" if ok else
+                     f"zero-sized arm: the iterator is sized {show(v)} instead of range.end - range.start: draining a range that does "
+                     "not start at 0 yields / drops too many zero-sized values", where=b.where(s_), site="zst range length")
+    # ---- retain guard
+    bs = [b for b in P.fn_bodies() if b.item["name"] == "retain" and b.path.startswith("bump_box::BumpBox::<'a, [T]>::")]
+    if ctx.need(len(bs) == 1, R, "BumpBox<[T]>::retain"):
+        b = bs[0]
+        aggs = [(s_, st) for s_, st in b.assigns() if st["r"]["k"] == "agg" and st["r"].get("adt", "").endswith("PanicGuard")]
+        drops = [(s_, t) for s_, t in b.calls() if t["f"].get("name") == "drop_in_place"]
+        if ctx.need(len(aggs) == 1 and drops, R, "PanicGuard construction and drop_in_place in retain"):
+            gs, gst = aggs[0]
+            fn = gst["r"]["fnames"]
+            rd = strip_casts(b.prov_operand(gst["r"]["fields"][fn.index("read")], gs))
+            wr = strip_casts(b.prov_operand(gst["r"]["fields"][fn.index("write")], gs))
+            # first drop after the guard construction that is not inside the loop
+            first = [d for d in drops if b.dominates(gs, d[0]) and not b.can_reach(d[0], d[0], cleanup=False)]
+            ok = rd[0] == "bin" and rd[1].startswith("Add") and strip_casts(rd[3]) == ("int", 1, "usize") and strip_casts(rd[2]) == wr
+            ok = ok and bool(first)
+            if ok:
+                # the read field is not stepped again between the construction and that first drop... and not right after it
+                stores = [x for x, st in b.assigns() if st["p"]["p"] and any(isinstance(pe, dict) and pe.get("n") == "read" for pe in st["p"]["p"])
+                          and not b.can_reach(x, x, cleanup=False)]
+                ok = not stores
+            ctx.inst(R, b.path, ok, "guard { read: i + 1, write: i } is in place before element i is dropped" if ok else
+                     f"the guard is built with read = {show(rd)[:40]} (write = {show(wr)[:30]}) and stepped around the first drop: if that "
+                     "element's Drop panics the guard treats it as still alive - it stays in the slice and is dropped again", where=b.where(gs),
+                     site="retain guard skips the dropped element")
+
+
 def run(ctx, progs):
     ctx.assume("rustc's drop elaboration: a moved value is not dropped again; unwind edges and drop flags are as in MIR")
     ctx.assume("user code = calls of foreign-trait methods on type parameters (closures, Clone, PartialEq, Iterator) and drops of "
@@ -462,6 +505,7 @@ def run(ctx, progs):
         r5_double_accounting(ctx, P)
         r6_counted_per_iteration(ctx, P)
         r7_forgotten_callback_results(ctx, P)
+        r10_ranged_iter_and_retain_guard(ctx, P)
         from . import c08
         c08.r7_drain_keep_rest(ctx, P, R="C06.R8")
         from . import c16
